@@ -286,6 +286,36 @@ def _join_measurements(join, left_measurements, right_measurements):
     return joined_measurements
 
 
+def _parameter_config(name, paramset):
+    """
+    Measurement-level configuration that reproduces a model's parameter set.
+
+    Args:
+        name (:obj:`str`): The name of the parameter set
+        paramset (:class:`~pyhf.parameters.paramset`): The parameter set
+
+    Returns:
+        :obj:`dict`: The parameter configuration for a measurement
+    """
+    config = {
+        "name": name,
+        "bounds": [list(x) for x in paramset.suggested_bounds],
+        "inits": list(paramset.suggested_init),
+    }
+    try:
+        config["fixed"] = paramset.suggested_fixed_as_bool
+    except RuntimeError:
+        # per-bin fixed flags that differ (e.g. bins without uncertainty) are
+        # re-derived from the modifier data and cannot be stored as one bool
+        pass
+    # constraint settings (e.g. of the luminosity) are part of the model as well
+    for key in ("auxdata", "sigmas", "factors"):
+        values = getattr(paramset, key, None)
+        if values is not None:
+            config[key] = [float(x) for x in values]
+    return config
+
+
 class Workspace(_ChannelSummaryMixin, dict):
     """
     A JSON-serializable object that is built from an object that follows the :obj:`workspace.json` `schema <https://scikit-hep.org/pyhf/likelihood.html#workspace>`__.
@@ -829,15 +859,7 @@ class Workspace(_ChannelSummaryMixin, dict):
                 'config': {
                     'poi': model.config.poi_name,
                     'parameters': [
-                        {
-                            "bounds": [
-                                list(x)
-                                for x in parset_spec['paramset'].suggested_bounds
-                            ],
-                            "inits": parset_spec['paramset'].suggested_init,
-                            "fixed": parset_spec['paramset'].suggested_fixed_as_bool,
-                            "name": parset_name,
-                        }
+                        _parameter_config(parset_name, parset_spec['paramset'])
                         for parset_name, parset_spec in model.config.par_map.items()
                     ],
                 },
